@@ -57,6 +57,8 @@ def fixed_cases(tier):
     # run-count matrix: exactly k runs for k around every power of two up to 300
     for spec in C.run_count_specs():
         out.append({"spec": spec, "cfg": S.simple_config(["try_from", "TryFrom", "into", "Into"]), "seed": 0})
+    for spec in C.structured_specs():
+        out.append({"spec": spec, "cfg": S.simple_config(["try_from", "TryFrom", "into", "Into"]), "seed": 4})
     for spec in C.block_specs():
         out.append({"spec": spec, "cfg": S.simple_config(["try_from", "TryFrom", "into", "Into"]), "seed": 3})
     for spec in C.span_specs():
